@@ -443,18 +443,47 @@ def gen_val(rng, ty, size_hint=4, as_elem=False):
 
 
 # ------------------------------------------------------------------ running the implementation
+class CodecTimeout(Exception):
+    """a single to_bytes / from_bytes call did not finish in time (e.g. a misread array count of 2^32)"""
+
+
+def _on_alarm(_sig, _frm):
+    raise CodecTimeout()
+
+
+def guarded_call(fn, seconds=1.0):
+    return _guarded(lambda _x: fn(), None, seconds)
+
+
+def _guarded(fn, arg, seconds=1.0):
+    import signal
+    old = signal.signal(signal.SIGALRM, _on_alarm)
+    signal.setitimer(signal.ITIMER_REAL, seconds)
+    try:
+        return fn(arg)
+    finally:
+        signal.setitimer(signal.ITIMER_REAL, 0)
+        signal.signal(signal.SIGALRM, old)
+
+
 def impl_encode(tobj, pobj):
     try:
-        n, b = tobj.to_bytes(pobj)
+        n, b = _guarded(tobj.to_bytes, pobj)
         return ('ok', n, bytes(b))
+    except CodecTimeout:
+        return ('err', 'did-not-finish')
     except Exception as e:  # noqa
         return ('err', err_name(e))
 
 
 def impl_decode(tobj, data):
     try:
-        n, o = tobj.from_bytes(data)
+        n, o = _guarded(tobj.from_bytes, data)
         return ('ok', n, o)
+    except CodecTimeout:
+        return ('err', 'did-not-finish')
+    except MemoryError:
+        return ('err', 'memory')
     except Exception as e:  # noqa
         return ('err', err_name(e))
 
@@ -511,11 +540,11 @@ def shrink_candidates(ty, v):
             for i in range(len(fs)):                      # drop one field
                 rest = fs[:i] + fs[i + 1:]
                 yield [k] + rest, ['r'] + [[n, x] for n, x in v[1:] if n != fs[i][0]]
-        for n, fty, d in fs:                              # shrink inside one field
+        for i, (n, fty, d) in enumerate(fs):              # shrink inside one field (its type may shrink with it)
             if n in st:
                 for t2, v2 in shrink_candidates(fty, st[n]):
-                    if t2 is fty or t2 == fty:
-                        yield ty, ['r'] + [[m, (v2 if m == n else x)] for m, x in v[1:]]
+                    yield [k] + fs[:i] + [[n, t2, d if t2 == fty else 'none']] + fs[i + 1:], \
+                        ['r'] + [[m, (v2 if m == n else x)] for m, x in v[1:]]
     elif k == 'arr' and v != 'none' and v[0] == 'l':
         e = elem_ty(ty[1])
         for x in v[1:]:
@@ -533,13 +562,15 @@ def shrink_candidates(ty, v):
 
 def shrink(ty, v, still_fails, budget=200):
     """greedy: take the first smaller candidate on which `still_fails(ty, val)` holds, repeat"""
+    import time
     steps = 0
     progress = True
-    while progress and steps < budget:
+    deadline = time.time() + 20
+    while progress and steps < budget and time.time() < deadline:
         progress = False
         for t2, v2 in shrink_candidates(ty, v):
             steps += 1
-            if steps > budget:
+            if steps > budget or time.time() > deadline:
                 break
             try:
                 if still_fails(t2, v2):
